@@ -1438,7 +1438,22 @@ fn parse_mem(s: &str) -> BTreeMap<u32, u32> {
 
 /// compare an `ok ...` implementation line with a model/spec line field by field.
 /// `dc`: don't-care markers of the Spec; `with_cost`: compare cost= too.  Returns the first difference.
-pub fn diff_state(imp: &str, other: &str, dc: &[&str], with_cost: bool, case_ccr: u8) -> Option<String> {
+/// initial memory overrides of a step case (`mem=addr:hexbytes;...`)
+fn case_mem(case: &str) -> BTreeMap<u32, u32> {
+    let mut m = BTreeMap::new();
+    for e in field(case, "mem").unwrap_or("").split(';').filter(|e| !e.is_empty()) {
+        if let Some((a, bytes)) = e.split_once(':') {
+            let a = u32::from_str_radix(a, 16).unwrap_or(0);
+            for (k, ch) in bytes.as_bytes().chunks(2).enumerate() {
+                let v = u32::from_str_radix(std::str::from_utf8(ch).unwrap_or("0"), 16).unwrap_or(0);
+                m.insert(a.wrapping_add(k as u32), v);
+            }
+        }
+    }
+    m
+}
+
+pub fn diff_state(case: &str, imp: &str, other: &str, dc: &[&str], with_cost: bool, case_ccr: u8) -> Option<String> {
     for key in ["pc", "er", "msgs", "pend", "trace"] {
         let a = field(imp, key);
         let b = field(other, key);
@@ -1468,7 +1483,9 @@ pub fn diff_state(imp: &str, other: &str, dc: &[&str], with_cost: bool, case_ccr
         if let Some(a) = d.strip_prefix("stcw:") {
             // the word at a must hold CCR in at least one byte; nothing else about it is fixed
             let a = u32::from_str_radix(a, 16).unwrap_or(0);
-            let cur = |m: &BTreeMap<u32, u32>, x: u32| m.get(&x).copied().unwrap_or(tag(x) as u32);
+            // a byte the instruction left unchanged is absent from the delta: its value is the case's initial content
+            let init = case_mem(case);
+            let cur = |m: &BTreeMap<u32, u32>, x: u32| m.get(&x).copied().unwrap_or_else(|| init.get(&x).copied().unwrap_or(tag(x) as u32));
             let (b0, b1) = (cur(&ma, a), cur(&ma, (a + 1) & 0xffffff));
             ma.remove(&a);
             ma.remove(&((a + 1) & 0xffffff));
@@ -1515,7 +1532,7 @@ pub fn judge_step(ctx: &Ctx, case: &str, imp: &str, drv: &str) -> (Verdict, Stri
     let corr = if !model_known {
         None
     } else if imp_class == "ok" && m.starts_with("ok") {
-        diff_state(imp, m, &[], true, case_ccr)
+        diff_state(case, imp, m, &[], true, case_ccr)
     } else if imp.split(' ').next() == m.split(' ').next() {
         None
     } else {
@@ -1551,7 +1568,7 @@ pub fn judge_step(ctx: &Ctx, case: &str, imp: &str, drv: &str) -> (Verdict, Stri
                 None
             }
         } else {
-            diff_state(imp, s, &dc, false, case_ccr)
+            diff_state(case, imp, s, &dc, false, case_ccr)
         }),
         "unimpl" | "reject" | "fetchfault" if prop == "C07" || prop == "C14" => Some(if imp_class == "ok" {
             Some(format!("{} {} must stop with an error, impl executed it: {}", class, form, imp))
